@@ -669,9 +669,9 @@ pub fn run(c: &Ctx) {
     }
     // relative listings / queries racing "change the cwd, then change the old cwd": an answer about the new state of
     // the old directory matches no sequential order
-    for p in [".", "b"] {
+    for p in [".", "b", "f"] {
         for f in crate::fsalpha::single_path_ops(p, false).into_iter().filter(|o| claimed(o) && !o.is_mutator()) {
-            for (j, second) in [Op::Mkfile(s("/a/x")), Op::Remove(s("/a/f")), Op::MkdirP(s("/a/b/y"))].into_iter().enumerate() {
+            for (j, second) in [Op::Mkfile(s("/a/x")), Op::Remove(s("/a/f")), Op::MkdirP(s("/a/b/y")), Op::RemoveAll(s("/a/b"))].into_iter().enumerate() {
                 jobs.push((3, vec![vec![f.clone()], vec![Op::SetCwd(s("/d")), second]], j % 2 == 1, false));
                 race += 1;
             }
